@@ -32,6 +32,9 @@ func (o opk) String() string {
 	case 'P':
 		return "Dump"
 	}
+	if o.kind == 'U' {
+		return map[string]string{"L": "Load", "S": "Store", "D": "Delete"}[o.key] + "(unhashable key)"
+	}
 	return map[byte]string{'S': "Store", 'L': "Load", 'D': "Delete"}[o.kind] + "(" + o.key + ")"
 }
 
@@ -55,6 +58,9 @@ type harness struct {
 	prefill []string
 	progs   [][]opk
 	warm    int
+	// faults: the removal callback panics for key "b" and 'U' operations pass a key that cannot be hashed; the calling
+	// thread recovers. A caller's fault stays with that caller: the other threads' operations still complete.
+	faults bool
 }
 
 func (h harness) String() string {
@@ -65,6 +71,9 @@ func (h harness) String() string {
 			q = append(q, o.String())
 		}
 		p = append(p, "["+strings.Join(q, " ")+"]")
+	}
+	if h.faults {
+		return fmt.Sprintf("faults(callback panics for b; unhashable keys) cap=%d prefill=%v %s", h.cap, h.prefill, strings.Join(p, " || "))
 	}
 	if h.warm > 0 {
 		return fmt.Sprintf("cap=%d warm=%d prefill=%v %s", h.cap, h.warm, h.prefill, strings.Join(p, " || "))
@@ -80,6 +89,13 @@ type execState struct {
 
 func (h harness) setup(st *execState) []func() {
 	st.lru = valid.NewLRU(h.cap)
+	if h.faults {
+		st.lru.SetDelCallBackFn(func(k, v interface{}) {
+			if k == "b" {
+				panic("removal callback refuses b")
+			}
+		})
+	}
 	for i := 0; i < h.warm; i++ { // leaves the cache empty; only the hidden counter moves
 		st.lru.Store(fmt.Sprintf("w%d", i), 0)
 		st.lru.Delete(fmt.Sprintf("w%d", i))
@@ -102,6 +118,34 @@ func (h harness) setup(st *execState) []func() {
 				vsched.Yield()
 				e := evs[i]
 				e.call = vsched.Tick()
+				if h.faults {
+					func() {
+						defer func() { recover() }()
+						switch o.kind {
+						case 'S':
+							st.lru.Store(o.key, e.val)
+						case 'L':
+							st.lru.Load(o.key)
+						case 'D':
+							st.lru.Delete(o.key)
+						case 'N':
+							st.lru.Len()
+						case 'P':
+							st.lru.Dump()
+						case 'U':
+							switch o.key {
+							case "L":
+								st.lru.Load([]int{1})
+							case "S":
+								st.lru.Store([]int{1}, 1)
+							default:
+								st.lru.Delete(map[string]int{})
+							}
+						}
+					}()
+					e.ret = vsched.Tick()
+					continue
+				}
 				switch o.kind {
 				case 'S':
 					st.lru.Store(o.key, e.val)
@@ -417,6 +461,15 @@ func exploreHarness(c *runner.Ctx, h harness, bound int, race bool, linCache map
 				return false
 			}
 		}
+		if h.faults {
+			// the oracle here is only: no thread is left waiting, and the cache still answers afterwards
+			pan, msg, site := runner.Guard(func() { st.lru.Len(); st.lru.Load("a"); st.lru.Store("z", 1); st.lru.Delete("z") })
+			if pan && !strings.Contains(msg, "refuses b") {
+				report("panic-after-faults@"+site, x, msg)
+				return false
+			}
+			return ok
+		}
 		var evs []*event
 		for _, t := range st.evTh {
 			evs = append(evs, t...)
@@ -708,6 +761,22 @@ func run(c *runner.Ctx) {
 				{"H2x1-unbounded", -1, pairs(p1), cfgs},
 				{"H2x2-bound1", 1, pairs(p2), cfgs[1:2]},
 			}
+		}
+	}
+	// faults: every pair of 2-operation programs over an alphabet in which operations fail inside the cache's critical
+	// section (the user's removal callback panics; a key cannot be hashed) and the caller recovers
+	if !race {
+		faultAlpha := []opk{{'S', "a"}, {'S', "b"}, {'S', "c"}, {'D', "b"}, {'L', "b"}, {'U', "L"}, {'U', "S"}, {'U', "D"}, {'N', ""}}
+		fp := allProgs(faultAlpha, 2)
+		for _, cf := range []cfgT{{1, []string{"b"}, 0}, {2, []string{"b", "a"}, 0}} {
+			c.Space(fmt.Sprintf("%sfaults-H2x2-bound1 cap=%d prefill=%v", pfx, cf.cap, cf.prefill))
+			pairs(fp)(func(progs [][]opk) {
+				if !c.Take() {
+					return
+				}
+				h := harness{cap: cf.cap, prefill: cf.prefill, progs: progs, faults: true}
+				exploreHarness(c, h, 1, race, linCache, deadline)
+			})
 		}
 	}
 	for _, pl := range plans {
